@@ -1048,6 +1048,12 @@ class Tensor:
     def isnan(self):
         return _ewise(sx.isnan, (self,), out_dtype=bool)
 
+    def isposinf(self):
+        return _ewise(lambda a: sx.And(sx.isinf(a), sx.gt(a, 0.0)), (self,), out_dtype=bool)
+
+    def isneginf(self):
+        return _ewise(lambda a: sx.And(sx.isinf(a), sx.lt(a, 0.0)), (self,), out_dtype=bool)
+
     def isfinite(self):
         return _ewise(lambda a: sx.Not(sx.Or(sx.isinf(a), sx.isnan(a))), (self,), out_dtype=bool)
 
@@ -1665,6 +1671,8 @@ abs = _unary('abs')
 neg = _unary('neg')
 isinf = _unary('isinf')
 isnan = _unary('isnan')
+isposinf = _unary('isposinf')
+isneginf = _unary('isneginf')
 isfinite = _unary('isfinite')
 logical_not = _unary('logical_not')
 relu = _unary('relu')
